@@ -68,7 +68,7 @@ func (s *stream) ident(m *auparse.AuditMessage) string {
 			}
 		}
 	}
-	return fmt.Sprintf("(mk %d %d %d)", id, m.Sequence, int(m.RecordType))
+	return fmt.Sprintf("(mk (%d) %d %d)", id, m.Sequence, int(m.RecordType)) // (-1): a message nobody pushed
 }
 
 func (s *stream) ReassemblyComplete(msgs []*auparse.AuditMessage) {
